@@ -28,7 +28,7 @@ type monC13 struct {
 func newMonC13() *monC13 {
 	return &monC13{ledger: map[PosKey]map[string]*big.Rat{}, res: map[PosKey]map[string]*big.Rat{}, segs: map[PosKey]int{}}
 }
-func (m *monC13) Name() string { return "C13" }
+func (m *monC13) Name() string     { return "C13" }
 func (m *monC13) Finish(r *Runner) {}
 
 type settlement struct {
